@@ -18,8 +18,7 @@ from .common import COQ
 
 FOREIGN = 1_000_000
 COQ_MODEL = ["C14G/CfgSem.v", "C14G/CfgCheck.v"]
-COQ_PROOFS = ["C14G/CfgSemProofs.v", "C14G/ChainProofs.v", "C14G/FlipProofs.v", "C14G/TailProofs.v", "C14G/SplitProofs.v",
-              "C14G/PropsCfg.v"]
+COQ_PROOFS = ["C14G/CfgSemProofs.v", "C14G/ChainProofs.v", "C14G/FlipProofs.v", "C14G/TailProofs.v", "C14G/PropsCfg.v"]
 IMPORTS = ("From Coq Require Import NArith String.\nFrom Verif Require Import C14G.CfgSem C14G.CfgCheck.\n"
            "Open Scope string_scope.\nOpen Scope Z_scope.\n")
 PASSES = ("SimplifyCFGPass", "BranchOptimizationPass", "TailMergePass", "CFGNormalization")
@@ -488,6 +487,35 @@ def run_families(obs, rnd, n_random):
     return n
 
 
+# ------------------------------------------------------------------ permanent regressions (defects found by this part, repaired in /repo)
+def run_regressions(obs):
+    """corpus/C14/branchopt_equal_targets.{vy,venom}: `jnz c, @J, @J` produced by SimplifyCFG._merge_jump reached
+    BranchOptimizationPass, which raised ValueError (repaired: b8e4400).  Returns a list of failures."""
+    from .common import VERIF
+    from vyper.compiler import compile_code
+    from vyper.compiler.settings import OptimizationLevel, Settings, VenomOptimizationFlags
+    from vyper.venom import run_passes_on
+    from vyper.venom.parser import parse_venom
+    out = []
+    d = VERIF / "corpus" / "C14"
+    for lvl in (OptimizationLevel.GAS, OptimizationLevel.CODESIZE, OptimizationLevel.NONE, OptimizationLevel.O3):
+        obs.origin = f"regression:branchopt_equal_targets.vy:{lvl.name}"
+        try:
+            compile_code((d / "branchopt_equal_targets.vy").read_text(), output_formats=["bytecode"],
+                         settings=Settings(experimental_codegen=True, optimize=lvl))
+        except Exception as e:
+            out.append({"replay": str(d / "branchopt_equal_targets.vy"), "level": lvl.name, "error": f"{type(e).__name__}: {e}"[:300],
+                        "command": f"python -m vyper.cli.vyper_compile --experimental-codegen -O {lvl.name.lower()} -f bytecode corpus/C14/branchopt_equal_targets.vy"})
+        obs.origin = f"regression:branchopt_equal_targets.venom:{lvl.name}"
+        try:
+            run_passes_on(parse_venom((d / "branchopt_equal_targets.venom").read_text()), VenomOptimizationFlags(level=lvl))
+        except Exception as e:
+            out.append({"replay": str(d / "branchopt_equal_targets.venom"), "level": lvl.name, "error": f"{type(e).__name__}: {e}"[:300],
+                        "command": "run_passes_on(parse_venom(text), VenomOptimizationFlags(level=...))"})
+    obs.origin = None
+    return out
+
+
 # ------------------------------------------------------------------ entry points
 def prebuild(ctx):
     return ctx.coq_build_cached(COQ_MODEL + COQ_PROOFS)
@@ -522,6 +550,14 @@ def part_cfg_passes(ctx):
         warnings.simplefilter("ignore")
         old = signal.signal(signal.SIGALRM, on_alarm)
         with Observer(max_insts=500 if quick else 1500) as obs:
+            regress = []
+            try:
+                signal.alarm(120)
+                regress = run_regressions(obs)
+            except Hang:
+                hangs.append("regression replays")
+            finally:
+                signal.alarm(0)
             try:
                 signal.alarm(120)
                 nfam = run_families(obs, rnd, 40 if quick else 400)
@@ -551,7 +587,10 @@ def part_cfg_passes(ctx):
                       {"programs": hangs})
     if obs.errors:
         ctx.violation("correspondence-broken", "cannot snapshot a pass invocation: " + obs.errors[0], {"errors": obs.errors[:5]})
-    for cr in obs.crashes[:2]:
+    for rg in regress[:2]:
+        ctx.violation("failing-input", "the venom pipeline crashes on a program it must compile (regression of a repaired defect): "
+                      + rg["error"][:120], rg, key="cfgpass-crash:BranchOptimizationPass")
+    for cr in ([] if regress else obs.crashes[:2]):
         ctx.violation("failing-input", f"{cr['pass']} raises {cr['error'][:120]} on a well-formed function",
                       {"pass": cr["pass"], "error": cr["error"], "function_before": cr["before"], "origin": cr["origin"],
                        "call": f"{cr['pass']}(IRAnalysesCache(fn), fn).run_pass() on parse_venom(function_before)"},
